@@ -59,6 +59,9 @@ func c20Groups(tier string) []core.Group {
 			gs = append(gs, core.Group{Key: fmt.Sprintf("arith/%s/%s", e.name, op), Run: func(c *core.Ctx) { c20Arith(c, e, op) }})
 		}
 		gs = append(gs, core.Group{Key: "fma/" + e.name, Run: func(c *core.Ctx) { c20FMA(c, e) }})
+		if e.e != nil {
+			gs = append(gs, core.Group{Key: "misfit/" + e.name, Run: func(c *core.Ctx) { c20Misfit(c, e) }})
+		}
 		for _, prod := range []string{"Inner", "MatVecMul", "MatMul", "Outer", "Dot", "TensorMul"} {
 			prod := prod
 			for _, la := range []string{gen.LC, gen.LT, gen.LS} {
@@ -386,6 +389,112 @@ func c20FMA(c *core.Ctx, e c20Eng) {
 						}
 					}
 				}
+			}
+		}
+	}
+	c.Control(true)
+}
+
+// c20Misfit: operands and destinations whose shapes do not match (same number of elements, another shape). The default
+// engine refuses some of these and reshapes the destination in others; a drop-in replacement has to do the same, or refuse.
+func c20Misfit(c *core.Ctx, e c20Eng) {
+	t := e.t
+	mk := func(eng tensor.Engine, shape []int, lay string, base int) (*tensor.Dense, []interface{}) {
+		n := model.Size(shape)
+		vals := make([]interface{}, n)
+		for i := range vals {
+			vals[i] = model.FromInt(t, int64(base+i))
+		}
+		op, err := gen.BuildWith(model.New(t, shape, vals), lay, c.Rng, eng)
+		if err != nil || op.Layout != lay {
+			return nil, nil
+		}
+		return op.D, vals
+	}
+	read := func(d tensor.Tensor) string {
+		if rv := reflect.ValueOf(d); d == nil || (rv.Kind() == reflect.Ptr && rv.IsNil()) {
+			return "nil"
+		}
+		m, err := gen.ReadAll(d)
+		if err != nil {
+			return "unreadable"
+		}
+		return fmt.Sprint(m.Shape, m.V)
+	}
+	type kase struct {
+		name       string
+		sa, sb, sd []int // shapes of a, of b (or x), of the destination (or y)
+		run        func(a, b, d *tensor.Dense) (tensor.Tensor, error)
+	}
+	scalar := model.FromInt(t, 3)
+	cases := []kase{
+		{"Add(a,b)", []int{2, 3}, []int{3, 2}, nil, func(a, b, d *tensor.Dense) (tensor.Tensor, error) { return tensor.Add(a, b) }},
+		{"Add(a,b)", []int{2, 3}, []int{6}, nil, func(a, b, d *tensor.Dense) (tensor.Tensor, error) { return tensor.Add(a, b) }},
+		{"Add(a,b,unsafe)", []int{2, 3}, []int{3, 2}, nil, func(a, b, d *tensor.Dense) (tensor.Tensor, error) { return tensor.Add(a, b, tensor.UseUnsafe()) }},
+		{"Add(a,b,reuse)", []int{2, 3}, []int{3, 2}, []int{2, 3}, func(a, b, d *tensor.Dense) (tensor.Tensor, error) { return tensor.Add(a, b, tensor.WithReuse(d)) }},
+		{"Add(a,b,reuse)", []int{2, 3}, []int{2, 3}, []int{3, 2}, func(a, b, d *tensor.Dense) (tensor.Tensor, error) { return tensor.Add(a, b, tensor.WithReuse(d)) }},
+		{"Add(a,b,reuse)", []int{2, 3}, []int{2, 3}, []int{6}, func(a, b, d *tensor.Dense) (tensor.Tensor, error) { return tensor.Add(a, b, tensor.WithReuse(d)) }},
+		{"Add(a,b,incr)", []int{2, 3}, []int{2, 3}, []int{3, 2}, func(a, b, d *tensor.Dense) (tensor.Tensor, error) { return tensor.Add(a, b, tensor.WithIncr(d)) }},
+		{"Add(a,b,incr)", []int{2, 3}, []int{3, 2}, []int{2, 3}, func(a, b, d *tensor.Dense) (tensor.Tensor, error) { return tensor.Add(a, b, tensor.WithIncr(d)) }},
+		{"FMA(a,x,y)", []int{2, 3}, []int{3, 2}, []int{2, 3}, func(a, b, d *tensor.Dense) (tensor.Tensor, error) { return tensor.FMA(a, b, d) }},
+		{"FMA(a,x,y)", []int{2, 3}, []int{2, 3}, []int{3, 2}, func(a, b, d *tensor.Dense) (tensor.Tensor, error) { return tensor.FMA(a, b, d) }},
+		{"FMA(a,x,y)", []int{2, 3}, []int{2, 3}, []int{6}, func(a, b, d *tensor.Dense) (tensor.Tensor, error) { return tensor.FMA(a, b, d) }},
+		{"FMA(a,s,y)", []int{2, 3}, nil, []int{3, 2}, func(a, b, d *tensor.Dense) (tensor.Tensor, error) { return tensor.FMA(a, scalar, d) }},
+		{"FMA(a,s,y)", []int{2, 3}, nil, []int{6}, func(a, b, d *tensor.Dense) (tensor.Tensor, error) { return tensor.FMA(a, scalar, d) }},
+		{"FMA(a,s,y)", []int{6}, nil, []int{2, 3}, func(a, b, d *tensor.Dense) (tensor.Tensor, error) { return tensor.FMA(a, scalar, d) }},
+	}
+	for _, k := range cases {
+		for _, lay := range []string{gen.LC, gen.LF} {
+			outcome := func(eng tensor.Engine) (string, bool) {
+				a, _ := mk(eng, k.sa, lay, 1)
+				var b, d *tensor.Dense
+				if k.sb != nil {
+					b, _ = mk(eng, k.sb, lay, 10)
+				}
+				if k.sd != nil {
+					d, _ = mk(eng, k.sd, lay, 100)
+				}
+				if a == nil || (k.sb != nil && b == nil) || (k.sd != nil && d == nil) {
+					return "precondition", true
+				}
+				var res tensor.Tensor
+				var err error
+				p, _ := core.Catch(func() { res, err = k.run(a, b, d) })
+				post := fmt.Sprint(" a=", read(a), " b=", read(b), " d=", read(d))
+				if p || err != nil {
+					return "refused" + post, true
+				}
+				is := "fresh"
+				switch {
+				case res == tensor.Tensor(a):
+					is = "a"
+				case b != nil && res == tensor.Tensor(b):
+					is = "b"
+				case d != nil && res == tensor.Tensor(d):
+					is = "d"
+				}
+				return fmt.Sprint("res=", read(res), " is=", is, post), false
+			}
+			ref, refRefused := outcome(nil)
+			alt, altRefused := outcome(e.e)
+			key := core.Sig("misfit", e.name, k.name, shapeStr(k.sa), shapeStr(k.sb), shapeStr(k.sd), lay)
+			c.Eval(key, true)
+			desc := map[string]interface{}{"engine": e.name, "call": k.name, "a": k.sa, "b_or_x": k.sb, "dest_or_y": k.sd, "layout": lay}
+			if c.WantSample("misfit/" + e.name) {
+				c.Sample("misfit/"+e.name, desc)
+			}
+			if ref == "precondition" || alt == "precondition" {
+				continue
+			}
+			caseKey := fmt.Sprintf("misfit/%s/%s/%s/%s/%s/%s", e.name, k.name, shapeStr(k.sa), shapeStr(k.sb), shapeStr(k.sd), lay)
+			switch {
+			case refRefused && !altRefused:
+				c.Violation(core.Sig("misfit", k.name, "accepted-where-default-engine-refuses", "engine="+e.name), caseKey, desc, short(ref), short(alt))
+			case altRefused && !refRefused:
+				c.Refused("engine-refuses-misfit:" + e.name + ":" + k.name)
+			case ref != alt:
+				// (two refusals may leave different texts; their post-states are part of the outcome and must agree)
+				c.Violation(core.Sig("misfit", k.name, "differs-from-default-engine", "engine="+e.name), caseKey, desc, short(ref), short(alt))
 			}
 		}
 	}
